@@ -61,6 +61,15 @@ class Rec:
     def env(self):
         e = {n: self.call(n) for n in OPAQUE}
         e["panic"] = self.panic
+        # native readings of the array constructor and of the two array helpers of the corpus header (lib/e4_corpus.HEADER)
+        e["array"] = lambda *a: list(a)
+        e["mk3"] = lambda a: [e["f"](a), a + 1, a + 2]
+
+        def bump(xs, i):
+            xs[i] += 1
+            return xs[i]
+
+        e["bump"] = bump
         return e
 
 
